@@ -245,17 +245,48 @@ def prove(pc, goal, timeout_ms, cross=False, light=False, inputs=None):
     if isinstance(goal, bool) and goal:
         return 'discharged', 'eval', 0.0, None, ''
     g = z3.BoolVal(False) if isinstance(goal, bool) else goal
-    def attempt(ms):
+    def attempt(ms, wall=None):
         so_ = z3.Solver()
         so_.set('rlimit', int(ms * RLIMIT_PER_MS))      # deterministic budget (see core.oneshot); wall clock = safety net
-        so_.set('timeout', int(ms * 10))
+        so_.set('timeout', int(wall or ms * 10))
         so_.add(*pc)
         so_.add(z3.Not(g))
         return so_, so_.check()
-    # a short first attempt (valid obligations discharge in well under a second); when it is inconclusive the cheap
-    # counter-model searches run BEFORE the full budget is spent
-    so, r = attempt(min(4000, timeout_ms))
+    # Stages.  Only the LAST ones decide 'undecided', and those have deterministic (rlimit) budgets; the early ones are short cuts
+    # to 'discharged' / 'failed' and may use wall-clock limits (a time-out there only moves on to the next stage).
+    #  1. a short attempt (valid obligations discharge in well under a second);
+    #  2. relevant hypotheses only (cone of influence of the goal's symbols): proving the goal from a SUBSET of the path condition is
+    #     sound, a 'sat' answer of a slice means nothing and is ignored.  The unrelated non-linear facts of the state (cell * n =
+    #     edges, ...) are what makes the non-linear clauses of C15 / C13 unstable (0.3 s ... minutes for one and the same text);
+    #  3. the 4 s attempt, the fresh process, the cheap counter-model searches, the full budget, retry, external solvers.
+    if _nonlinear(g):
+        # 0. a non-linear goal goes to a FRESH solver process first, on its relevant hypotheses, then on everything: nlsat inside the
+        #    long-lived exploration process was seen to ignore its time limits (one text: 0.3 s fresh, 60 s in process)
+        sl0 = next(iter(relevant_slices(pc, g, 1)), (1, None))[1]
+        for hyp, tag in ((sl0, 'fresh process, relevant hypotheses, depth 1'), (pc, 'fresh process')):
+            if hyp is None:
+                continue
+            so_ = z3.Solver()
+            so_.add(*hyp)
+            so_.add(z3.Not(g))
+            if run_z3_cli(so_.to_smt2(), 5) == 'unsat':
+                return 'discharged', f'z3-5.1({tag})', time.time() - t0, None, ''
+    so, r = attempt(min(1000, timeout_ms), wall=1500)
     fresh_backend = None
+    if r == z3.unknown:
+        slices = list(relevant_slices(pc, g, 2))
+        for depth, sl in slices:
+            so_ = z3.Solver()
+            so_.set('rlimit', int(2000 * RLIMIT_PER_MS))
+            so_.set('timeout', 3000)
+            so_.add(*sl)
+            so_.add(z3.Not(g))
+            if so_.check() == z3.unsat:
+                return 'discharged', f'z3-5.1(relevant hypotheses, depth {depth})', time.time() - t0, None, ''
+            if depth == 1 and run_z3_cli(so_.to_smt2(), 5) == 'unsat':
+                return 'discharged', f'z3-5.1(fresh process, relevant hypotheses, depth {depth})', time.time() - t0, None, ''
+        if timeout_ms > 1000:
+            so, r = attempt(min(4000, timeout_ms))
     if r == z3.unknown:
         # the same query in a FRESH solver process (z3 5.1 command line on the exported SMT-LIB text): the in-process
         # context has accumulated the terms of the whole exploration, and queries that take 0.2 s in a clean context were
@@ -308,6 +339,73 @@ def prove(pc, goal, timeout_ms, cross=False, light=False, inputs=None):
                     return 'error', name, time.time() - t0, None, f'back ends disagree: z3-5.1 says {r}, {name} says {res}'
             backend += '+' + '+'.join(f'{n}:{v}' for n, v in others.items())
     return status, backend, time.time() - t0, model, reason
+
+
+def _nonlinear(e):
+    """does the term contain a product of two non-numeral factors?"""
+    stack, seen = [e], set()
+    while stack:
+        t = stack.pop()
+        if not z3.is_expr(t) or t.get_id() in seen:
+            continue
+        seen.add(t.get_id())
+        if z3.is_app(t):
+            if t.decl().kind() == z3.Z3_OP_MUL and sum(1 for c in t.children() if not (z3.is_rational_value(c) or z3.is_int_value(c))) >= 2:
+                return True
+            stack.extend(t.children())
+        elif z3.is_quantifier(t):
+            stack.append(t.body())
+    return False
+
+
+def _usyms(e):
+    out, stack, seen = set(), [e], set()
+    while stack:
+        t = stack.pop()
+        if t.get_id() in seen:
+            continue
+        seen.add(t.get_id())
+        if z3.is_app(t):
+            d = t.decl()
+            if d.kind() == z3.Z3_OP_UNINTERPRETED:
+                out.add(d.name())
+            stack.extend(t.children())
+        elif z3.is_quantifier(t):
+            stack.append(t.body())
+    return out
+
+
+def _flat_and(pc):
+    out = []
+    for c in pc:
+        if isinstance(c, bool):
+            if not c:
+                out.append(z3.BoolVal(False))
+            continue
+        if z3.is_and(c):
+            out += _flat_and(c.children())
+        else:
+            out.append(c)
+    return out
+
+
+def relevant_slices(pc, goal, maxdepth):
+    """yields (depth, conjuncts of pc that share an uninterpreted symbol with the goal within `depth` steps); stops before
+    the slice is the whole path condition (that query has been tried already)"""
+    cs = _flat_and(pc)
+    sy = [_usyms(c) for c in cs]
+    S = _usyms(goal)
+    inc = [False] * len(cs)
+    for d in range(maxdepth):
+        new = set()
+        for i in range(len(cs)):
+            if not inc[i] and (sy[i] & S):
+                inc[i] = True
+                new |= sy[i]
+        S |= new
+        if all(inc) or not any(inc):
+            return
+        yield d + 1, [c for i, c in enumerate(cs) if inc[i]]
 
 
 def run_z3_cli(smt, tlimit_s):
